@@ -21,6 +21,7 @@ SUB_NAMES = [["s1", "x1"], ["s2", "t2"], ["s3", "u3"]]
 DESTS = ["n", "m", "k", "l", "d", "g.l", "g.o", "h.s"]
 OS_VALUES = [None, None, None, "true", "false", "TRUE", "yes", ""]
 FINDING_SECTION_APPEND = "C04-subsection-append"
+FINDING_DCF_SECTION = "C04-subdcf-section-over-env"
 
 
 def B():
@@ -124,7 +125,7 @@ def gen_items(rng, node, n):
         a = rng.choice(real_args)
         r = rng.random()
         form = rng.choice(["eq", "sp"])
-        if a["type"] == "list" and r < 0.6:
+        if a["type"] in b.APPENDABLE and r < 0.6:
             v = b.gen_value(rng, "list", small=True) if rng.random() < 0.4 else rng.randint(0, 30)
             items.append({"t": "append", "k": a["dest"], "v": v, "form": form})
         elif a["type"] == "dict" and r < 0.6:
@@ -148,7 +149,7 @@ def gen_sections(rng, spec, path, allow_append):
                 continue
             v = b.gen_value(rng, a["type"])
             key = a["dest"]
-            if a["type"] == "list" and allow_append and rng.random() < 0.4:
+            if a["type"] in b.APPENDABLE and allow_append and rng.random() < 0.4:
                 key, v = key + "+", (v or [rng.randint(0, 30)])
                 has_append = has_append or d > 0
             b.put(cur, key, v, "nested")
@@ -238,12 +239,24 @@ def _add_args(parser, node):
             parser.add_argument("--" + a["dest"], type=b.py_type(a["type"]))
 
 
-def build_tree(spec):
+def _dcf(node, path, root_dir):
+    """default_config_files of a parser of the tree: node["dcf"] is the content of its one default config file"""
+    if root_dir is None or node.get("dcf") is None:
+        return []
+    d = os.path.join(root_dir, "dcf_tree")
+    os.makedirs(d, exist_ok=True)
+    f = os.path.join(d, "_".join(("root",) + tuple(path)) + ".json")
+    with open(f, "w") as fh:
+        fh.write(json.dumps(node["dcf"]))
+    return [f]
+
+
+def build_tree(spec, root_dir=None):
     """{path tuple: parser}; sub-parsers are added in level order"""
     from jsonargparse import ArgumentParser
 
     with _OsVar("JSONARGPARSE_DEFAULT_ENV", spec.get("os_default_env")):
-        root = ArgumentParser(prog="app", exit_on_error=False, default_env=spec["default_env"],
+        root = ArgumentParser(prog="app", exit_on_error=False, default_env=spec["default_env"], default_config_files=_dcf(spec["root"], (), root_dir),
                               env_prefix=spec["env_prefix"] if spec.get("env_prefix") is not None else False)
         _add_args(root, spec["root"])
         parsers = {(): root}
@@ -254,7 +267,8 @@ def build_tree(spec):
                 continue
             sc = parser.add_subcommands()
             for name, child in node["subs"]:
-                cp = ArgumentParser(exit_on_error=False, default_env=bool(child.get("ctor_env")))
+                cp = ArgumentParser(exit_on_error=False, default_env=bool(child.get("ctor_env")),
+                                    default_config_files=_dcf(child, path + (name,), root_dir))
                 _add_args(cp, child)
                 sc.add_subcommand(name, cp)
                 parsers[path + (name,)] = cp
@@ -349,7 +363,7 @@ def run_parse(parsers, spec, case, root_dir):
 
 def run_history(spec, hist, root_dir):
     """[(step index, real result, real flags along the path)] for the parse steps, on ONE freshly built tree"""
-    parsers = build_tree(spec)
+    parsers = build_tree(spec, root_dir)
     out = []
     for i, st in enumerate(hist):
         if st["op"] == "set":
@@ -403,25 +417,59 @@ def flatten_case(spec, case, env_on):
         if case.get("defaults", True):
             for a in node["args"]:
                 out.append(("set", pre + a["dest"], a.get("default")))
+        if node["subs"]:
+            out.append(("set", pre + "subcommand", path[d]))
+    for d in range(len(path) + 1):  # default config files: after the source defaults of every level, before the environment
+        node = node_at(spec, path[:d])
+        pre = ".".join(path[:d]) + "." if d else ""
+        if case.get("defaults", True) and node.get("dcf") is not None:
+            out += [(op, pre + k, v) for op, k, v in _rel_sections(spec, path[:d], node["dcf"])]
+    for d in range(len(path) + 1):
+        node = node_at(spec, path[:d])
+        pre = ".".join(path[:d]) + "." if d else ""
         if env_on:
             for a in node["args"]:
                 if a["type"] != "config" and pre + a["dest"] in case.get("env_vars", {}):
                     out.append(("set", pre + a["dest"], case["env_vars"][pre + a["dest"]]))
-        if node["subs"]:
-            out.append(("set", pre + "subcommand", path[d]))
     if case["method"] == "args":
         for d, items in enumerate(case["argv"]):
             pre = ".".join(path[:d]) + "." if d else ""
             for it in items:
                 if it["t"] == "cfg":
                     out += flatten_sections(spec, it["tree"])
-                    out.append(("append", "cfg", [None]))
+                    out.append(("note", "cfg", None))
                 elif it["t"] == "item":
                     out.append(("item", pre + it["k"], (it["i"], it["v"])))
                 else:
                     out.append((it["t"], pre + it["k"], it["v"]))
     else:
         out += flatten_sections(spec, case["tree"])
+    return out
+
+
+def _rel_sections(spec, path_d, tree):
+    """assignments of a config of the parser at path_d, keys relative to that parser"""
+    pre = ".".join(path_d) + "." if path_d else ""
+    wrapped = tree
+    for name in reversed(path_d):
+        wrapped = {name: wrapped}
+    return [(op, k[len(pre):], v) for op, k, v in flatten_sections(spec, wrapped)]
+
+
+def dcf_section_env_keys(spec, case, env_on):
+    """signature of the open finding: keys of an inner level that a default config file of an OUTER parser of the path sets in a
+    section and that also have an environment variable which is read"""
+    out = set()
+    if not env_on or not case.get("defaults", True):
+        return out
+    path = case["path"]
+    for d in range(len(path) + 1):
+        node = node_at(spec, path[:d])
+        pre = ".".join(path[:d]) + "." if d else ""
+        if node.get("dcf") is not None:
+            for op, k, v in _rel_sections(spec, path[:d], node["dcf"]):
+                if arg_at(spec, pre + k)[1] > d and pre + k in case.get("env_vars", {}):
+                    out.add(pre + k)
     return out
 
 
@@ -456,6 +504,9 @@ def oracle(spec, hist, i, real, real_flags):
     if targets and status == "ok" and all(got.get(k) == want.get(k) for k in set(got) | set(want) if k not in targets):
         # behaviour of the open finding: the root's apply_appends reads the previous value from the ROOT's namespace
         return FINDING_SECTION_APPEND, "key+ for a subcommand's key inside a config of the root does not append to the list built so far for that key"
+    dkeys = dcf_section_env_keys(spec, case, env_on)
+    if dkeys and status == "ok" and all(got.get(k) == want.get(k) for k in set(got) | set(want) if k not in dkeys):
+        return FINDING_DCF_SECTION, "a section of an outer parser's default config file beats the inner parser's environment variable"
     if status != "ok":
         return False, "parse of well-formed sources failed: %s" % (got,)
     bad = sorted(k for k in set(got) | set(want) if got.get(k) != want.get(k))
@@ -465,8 +516,13 @@ def oracle(spec, hist, i, real, real_flags):
 
 # ---------------------------------------------------------------- the model
 def in_model(case):
-    """the Lean model covers `parse_args` along a path without sections for inner levels in an outer config"""
-    return case["method"] == "args" and not case.get("sections")
+    """the Lean model covers `parse_args` along a path (sections for inner levels in a root config included) and `parse_object` on the tree"""
+    return True
+
+
+def spec_in_model(spec):
+    """default config files of parsers with subcommands are outside the model (C17's subject)"""
+    return all(node_at(spec, p).get("dcf") is None for p in all_paths(spec["root"]))
 
 
 def model_line(spec, hist, i):
@@ -505,6 +561,7 @@ def model_line(spec, hist, i):
         "argv": items(case["argv"][0]),
         "env": [[env_name(spec, full), b.enc(v)] for full, v in case.get("env_vars", {}).items()],
         "call": {"defaults": case.get("defaults", True), "env_arg": case.get("env_arg"), "environ": None},
+        "tmethod": case["method"], **({"tree": b.enc(case["tree"])} if case["method"] == "object" else {}),
     }
 
 
@@ -512,6 +569,8 @@ def compare_model(case, real, real_flags, mod):
     b = B()
     if "levels" not in mod:
         return "driver: %s" % json.dumps(mod)[:300]
+    if mod.get("interleave"):
+        return None  # outside the model's assumption (a config with `k+` for an own key and for a section key at once)
     if mod["flags"] != real_flags:
         return "default_env along the path %s: real %s, model setter %s" % (case["path"], real_flags, mod["flags"])
     status, got = real
